@@ -12,13 +12,15 @@ One long-lived `Shelxfile` object is driven through a history of API calls (read
   byname     get_atom_by_name(a.fullname) is a            (when the NAME_RESINUM is unique)
   deleted    atoms deleted so far are absent from the atom list, the name index, hydrogen/riding/Q-peak lists,
              `_reslist`, and the written file
-  reread     after every read: the object equals a fresh object that read the same text (in-process fresh object
-             and a fresh *process*, so that class-level state is seen too)
+  reread     after every read into the long-lived object: (a) the read did not raise, (b) no mutable container that
+             lives on a class / module of the package changed (state shared by all later reads), (c) the whole object
+             (every attribute, atoms as tuples, symmetry operators, list of lines ...) equals what a fresh *process*
+             gets from the same text
 
 Streams (DESIGN 3.2):
   inv     implementation vs spec  (theorem history_inv: every clause holds after any history)   kind 'property'
   table   implementation vs model (`_reslist` layout, id/position table, name look-ups, clause verdicts, raised)
-  reread  implementation vs fresh object / fresh process                                   kind 'property'
+  reread  implementation (long-lived object, long-lived process) vs fresh process                kind 'property'
 Object identity is carried across as "line number at parse time" (the model's uid).
 """
 import itertools
@@ -768,7 +770,9 @@ def run(ctx):
             for seq in itertools.product(alpha, repeat=d):
                 cases.append(dict(files=files, ops=[['read_string', 0]] + [list(x) for x in seq]))
     ctx.exhaustive = True
-    ctx.extra['enumeration'] = f'all histories of length <= {depth} over {len(alpha)} letters after read_string(file 0): {len(cases)}'
+    ctx.extra['enumeration'] = (f'all histories of length 3 over {len(alpha)} letters and all of length 4 over the {len(edit)} edit/read_string letters, '
+                                f'after read_string(file 0): {len(cases)}' if depth >= 4 else
+                                f'all histories of length <= {depth} over {len(alpha)} letters after read_string(file 0): {len(cases)}')
     # witnesses of the Lean development, replayed on the implementation in every run
     cases.insert(0, dict(files=files, ops=[['read_string', 0], ['delete', 2]]))
     cases.insert(1, dict(files=files, ops=[['read_string', 0], ['rename', 1, 'C9']]))
